@@ -363,6 +363,14 @@ func expectNumber(lit string, fl json.ParseFlags) (typ string, check func(got an
 	return "float64", func(g any) bool { v, ok := g.(float64); return ok && v == f }
 }
 
+// Dyn is a named interface type without methods: decoded like interface{}.
+type Dyn interface{}
+
+type dynHolder struct {
+	N Dyn
+	P any
+}
+
 func runNumbers(c *core.Case) {
 	c.Journal("number-modes")
 	for k := 0; k < 24; k++ {
@@ -380,10 +388,40 @@ func runNumbers(c *core.Case) {
 				fl |= json.DontCopyNumber
 			}
 			wantType, chk := expectNumber(lit, fl)
-			for ctx, doc := range []string{lit, "[" + lit + "]", `{"k":` + lit + `}`, " " + lit + " "} {
+			for ctx, doc := range []string{lit, "[" + lit + "]", `{"k":` + lit + `}`, " " + lit + " ", `{"N":` + lit + `}`, `{"P":` + lit + `}`, lit, "[" + lit + "]", `{"k":` + lit + `}`} {
 				var v any
-				_, err := json.Parse([]byte(doc), &v, fl)
-				var got any = v
+				var err error
+				var got any
+				switch ctx {
+				case 4, 5: // fields of a named empty interface type and of the plain one
+					var h dynHolder
+					_, err = json.Parse([]byte(doc), &h, fl)
+					got = h.N
+					if ctx == 5 {
+						got = h.P
+					}
+				case 6: // behind a pointer the target interface already holds
+					var inner any
+					var x any = &inner
+					_, err = json.Parse([]byte(doc), &x, fl)
+					got = inner
+					if p, ok := x.(*any); err == nil && (!ok || p != &inner) {
+						c.Violation("number-modes|held-pointer", "pointer-replaced", fmt.Sprintf("Parse(%q) into an interface holding *interface{} replaced the pointer by %T", doc, x), nil)
+					}
+				case 7: // elements and map values of the named type
+					var a []Dyn
+					_, err = json.Parse([]byte(doc), &a, fl)
+					if len(a) == 1 {
+						got = a[0]
+					}
+				case 8:
+					var mm map[string]Dyn
+					_, err = json.Parse([]byte(doc), &mm, fl)
+					got = mm["k"]
+				default:
+					_, err = json.Parse([]byte(doc), &v, fl)
+					got = v
+				}
 				switch ctx {
 				case 1:
 					if a, ok := v.([]any); ok && len(a) == 1 {
@@ -416,13 +454,13 @@ func runNumbers(c *core.Case) {
 		}
 		c.Distinct(core.HashString("n"+lit), true)
 	}
-	c.Sample(0, map[string]any{"sub": "number-modes", "literals": 24, "flag_subsets": 16, "contexts": 4})
+	c.Sample(0, map[string]any{"sub": "number-modes", "literals": 24, "flag_subsets": 16, "contexts": 9})
 }
 
 func init() {
 	core.Register(&core.Monitor{
 		Prop:    "C14",
-		Rule:    "values: a generated / library / map-heavy value (the six map encoders, elements that fail, RawMessages valid or - when TrustRawMessage is not in the subset - invalid, HTML-carrying keys) is appended under all 8 AppendFlags subsets: err==nil iff it is with the default flags; output valid JSON decoding (encoding/json, UseNumber) to the same generic value as the default output; SortMapKeys off: same length as the sorted output (a permutation); EscapeHTML off: bytes equal encoding/json's Encoder with SetEscapeHTML(false); Encoder setters equal the flag word. The default output is parsed back under rotating subsets of DontCopyString/DontCopyNumber/DontCopyRawMessage/DontMatchCaseInsensitiveStructFields (and through Decoder.ZeroCopy) and must be deeply equal to the flag-less parse with the input untouched. number-modes: number literals (boundaries of int64/uint64, beyond 64 bits, fractions, exponents, -0) in 4 contexts under all 16 subsets of UseNumber/UseBigInt/UseInt64/UseUint64: dynamic type per the documented precedence and exact numeric value (big.Int / strconv).",
+		Rule:    "values: a generated / library / map-heavy value (the six map encoders, elements that fail, RawMessages valid or - when TrustRawMessage is not in the subset - invalid, HTML-carrying keys) is appended under all 8 AppendFlags subsets: err==nil iff it is with the default flags; output valid JSON decoding (encoding/json, UseNumber) to the same generic value as the default output; SortMapKeys off: same length as the sorted output (a permutation); EscapeHTML off: bytes equal encoding/json's Encoder with SetEscapeHTML(false); Encoder setters equal the flag word. The default output is parsed back under rotating subsets of DontCopyString/DontCopyNumber/DontCopyRawMessage/DontMatchCaseInsensitiveStructFields (and through Decoder.ZeroCopy) and must be deeply equal to the flag-less parse with the input untouched. number-modes (also in fields, elements and map values of a named empty interface type, and behind a pointer the target interface already holds): number literals (boundaries of int64/uint64, beyond 64 bits, fractions, exponents, -0) in 4 contexts under all 16 subsets of UseNumber/UseBigInt/UseInt64/UseUint64: dynamic type per the documented precedence and exact numeric value (big.Int / strconv).",
 		Trusted: []string{"encoding/json (1.23.5) for generic decoding and the EscapeHTML(false) bytes", "math/big and strconv for numeric values", "the precedence table in expectNumber, transcribed from the flag documentation"},
 		Subs: []core.Sub{
 			{Name: "values", N: core.Const(60000, 1500000), Run: runValues},
